@@ -104,7 +104,11 @@ pub fn run_guard(out_prefix: &str, shards: usize, seed: u64, scale: usize, poke:
                         calls::ev_iter(&mut r, &s, h, sp, false);
                         if mk == "std" {
                             calls::ev_overlap_iter(&mut r, &s, h, sp);
+                            // stepwise, anchored and not, polled again after the search has ended
+                            calls::ev_overlap_step(&mut r, &s, h, sp, false, 3);
+                            calls::ev_overlap_step(&mut r, &s, h, sp, true, 3);
                         }
+                        calls::ev_find(&mut r, &s, h, sp, true, false);
                         let rep: Vec<Vec<u8>> = (0..pats.len()).map(|_| vec![b'#']).collect();
                         calls::ev_replace_all_bytes(&mut r, &s, h, &rep);
                         r.flush(&data, sp);
@@ -419,6 +423,10 @@ fn build_shapes(rg: &mut StdRng, big: bool) -> Vec<(String, Pats)> {
     v.push(("all-bytes-one".into(), vec![(0..=255u8).collect()]));
     v.push(("fan-256".into(), (0..=255u8).map(|b| vec![b'x', b, b'y']).collect()));
     v.push(("fan-200-deep".into(), (0..200u8).map(|b| vec![b'x', b'y', b, b]).collect()));
+    // fan-outs at the sparse / dense threshold of the contiguous NFA (127) and just below it
+    for n in [124u8, 125, 126, 127, 128] {
+        v.push((format!("fan-{}-deep", n), (0..n).map(|b| vec![b'x', b'y', b'z', b.wrapping_add(60), b'q']).collect()));
+    }
     v.push(("long-300".into(), vec![(0..300).map(|i| b'a' + (i % 23) as u8).collect(), b"zz".to_vec()]));
     v.push(("p101".into(), (0..101).map(|i| format!("w{}x", i).into_bytes()).collect()));
     v.push(("p100".into(), (0..100).map(|i| format!("w{}x", i).into_bytes()).collect()));
